@@ -333,6 +333,8 @@ def compare(case, i, line, ir, mr):
     if not ir.startswith('ok'):
         return 'implementation reply %s' % ir[:120]
     a, b = proto.parse(ir[3:]), proto.parse(mr[3:])
+    if not (isinstance(a, list) and len(a) == 4 and isinstance(b, list) and len(b) == 4):
+        return 'the call returned something that is not a table: %s (model: %s)' % (ir[:160], mr[:160])
     # operands unchanged: the model returns its inputs as given
     for k, name in ((2, 'left'), (3, 'right')):
         if proto.canon(a[k]) != proto.canon(b[k]):
